@@ -210,5 +210,5 @@ def chk_surface(c, note):
 LEGS = [
     Leg("surface", chk_surface, enum=enum_surface, exhaustive=True, doc="all 128 movement x 2 status x 128 track codes"),
     Leg("airborne_sweep", chk_air, enum=enum_air_sweep, exhaustive=True, doc="each TC19 field swept over its whole range per subtype, other fields random"),
-    Leg("airborne", chk_air, strategy=s_air, quick=30000, thorough=2500000, doc="boundary-biased TC19 field combinations"),
+    Leg("airborne", chk_air, strategy=s_air, quick=30000, thorough=1200000, doc="boundary-biased TC19 field combinations"),
 ]
